@@ -130,7 +130,12 @@ type trustStore struct{}
 
 func (trustStore) GetCertificates(ctx context.Context, storeType truststore.Type, namedStore string) ([]*x509.Certificate, error) {
 	if storeType == truststore.TypeCA && namedStore == "signer" {
-		return []*x509.Certificate{root}, nil
+		// the store also holds the previous generation of the root: another certificate with the same subject
+		// (a key roll-over), listed first
+		old := *root
+		old.Raw = append([]byte{}, root.Raw...)
+		old.Raw[len(old.Raw)-1] ^= 1
+		return []*x509.Certificate{&old, root}, nil
 	}
 	return nil, truststore.TrustStoreError{Msg: "no such store"}
 }
